@@ -37,7 +37,7 @@ func nickScenario(rejoin bool) []verdict {
 	// address, the channel and the error of the call.
 	join := func(f func(ctx context.Context) (*muc.Channel, error)) (string, *muc.Channel, error, bool) {
 		rc := make(chan res, 1)
-		ctx, cancel := context.WithTimeout(context.Background(), 2*watchdog)
+		ctx, cancel := context.WithCancel(context.Background())
 		defer cancel()
 		go func() {
 			ch, err := f(ctx)
@@ -69,12 +69,14 @@ func nickScenario(rejoin bool) []verdict {
 			return "", nil, nil, false
 		}
 		w.finishIter()
-		select {
-		case r := <-rc:
-			return to, r.ch, r.err, true
-		case <-time.After(3 * watchdog):
-			return to, nil, nil, false
+		if !waitFor(watchdog, func() bool { return len(rc) > 0 }) {
+			cancel() // the call then returns its context's error
+			if !waitFor(watchdog, func() bool { return len(rc) > 0 }) {
+				return to, nil, nil, false
+			}
 		}
+		r := <-rc
+		return to, r.ch, r.err, true
 	}
 	var ch *muc.Channel
 	if rejoin {
